@@ -161,7 +161,8 @@ def run(name, dom, rows, params, seed, forced=None, iters_cap=40):
                 synth = m.MST(data, params['epsilon'], params['delta'])
             elif name == 'aim':
                 m = mechs.load('aim')
-                mech = m.AIM(params['epsilon'], params['delta'], rounds=params.get('rounds'), max_model_size=params.get('max_model_size', 80))
+                mech = m.AIM(params['epsilon'], params['delta'], prng=(np.random if params.get('prng') else None), rounds=params.get('rounds'),
+                             max_model_size=params.get('max_model_size', 80))
                 W = [(tuple(cl), 1.0) for cl in params['workload']]
                 synth = mech.run(data, W)
             elif name == 'mwem':
